@@ -2103,11 +2103,15 @@ func getMethod(n *node) {
 	l := n.level
 	next := getExec(n.tnext)
 
-	// A method value binds its receiver when it is evaluated: the receiver
-	// of a method declared with a value receiver is copied at that time.
+	// A method value binds its receiver when it is evaluated: the receiver of a
+	// method declared with a value receiver is copied at that time, and so is the
+	// pointer for a method declared with a pointer receiver. An addressable variable
+	// used as pointer receiver is the receiver itself.
 	var recv func(*frame) reflect.Value
-	if m := n.val.(*node); n.recv != nil && n.recv.node != nil && m.kind == funcDecl && !hasPtrRecv(m) {
+	var ptrRecv bool
+	if m := n.val.(*node); n.recv != nil && n.recv.node != nil && m.kind == funcDecl {
 		recv = genValueRecv(n)
+		ptrRecv = hasPtrRecv(m)
 	}
 
 	n.exec = func(f *frame) bltn {
@@ -2116,12 +2120,17 @@ func getMethod(n *node) {
 		nod.recv = n.recv
 		if recv != nil {
 			r := recv(f)
-			for r.Kind() == reflect.Ptr {
-				r = r.Elem()
+			if !ptrRecv {
+				for r.Kind() == reflect.Ptr {
+					r = r.Elem()
+				}
 			}
-			c := reflect.New(r.Type()).Elem()
-			c.Set(r)
-			nod.recv = &receiver{val: c}
+			if !ptrRecv || r.Kind() == reflect.Ptr {
+				c := reflect.New(r.Type()).Elem()
+				c.Set(r)
+				r = c
+			}
+			nod.recv = &receiver{val: r}
 		}
 		getFrame(f, l).data[i] = genFuncValue(&nod)(f)
 		return next
